@@ -21,6 +21,7 @@ type StructV struct {
 
 // SoAV is an array (fixed or slice backing) of structs: one array value per field.
 type SoAV struct {
+	Str bool // an array of strings: F = [byte arrays, offsets, lengths] and an element is a StringV
 	F []Value
 }
 
@@ -217,6 +218,10 @@ func (e *Exec) navigate(v Value, path []PElem, t types.Type) Value {
 			if pe.Index == nil {
 				panic(unsupported("field of SoA without index"))
 			}
+			if x.Str {
+				v = &StringV{Arr: e.c.Select(x.F[0].(*Term), pe.Index), Off: e.c.Select(x.F[1].(*Term), pe.Index), Len: e.c.Select(x.F[2].(*Term), pe.Index)}
+				continue
+			}
 			s := &StructV{F: make([]Value, len(x.F))}
 			for k, fa := range x.F {
 				s.F[k] = e.navigate(fa, []PElem{{Index: pe.Index}}, nil)
@@ -258,8 +263,18 @@ func (e *Exec) update(v Value, path []PElem, nv Value) Value {
 		if pe.Index == nil {
 			panic(unsupported("SoA update without index"))
 		}
-		n := &SoAV{F: make([]Value, len(x.F))}
+		n := &SoAV{F: make([]Value, len(x.F)), Str: x.Str}
 		copy(n.F, x.F)
+		if x.Str {
+			sv, ok := nv.(*StringV)
+			if !ok || len(path) != 1 {
+				panic(unsupported("string array element store"))
+			}
+			n.F[0] = e.c.Store(x.F[0].(*Term), pe.Index, sv.Arr)
+			n.F[1] = e.c.Store(x.F[1].(*Term), pe.Index, sv.Off)
+			n.F[2] = e.c.Store(x.F[2].(*Term), pe.Index, sv.Len)
+			return n
+		}
 		if len(path) == 1 {
 			sv, ok := nv.(*StructV)
 			if !ok {
